@@ -137,13 +137,15 @@ def run(ctx):
         b = ctx.body(fn)
         if not b:
             continue
-        errs = [bi for bi in core.error_exit_blocks(b) if any(s['k'] == 'assign' and s['p'] == [0] for s in b.blocks[bi]['s'])]
-        corr = [bi for bi in b.normal_blocks() for s in b.blocks[bi]['s'] if s['k'] == 'assign' and s['r']['k'] == 'agg' and s['r']['ak'] == 'Adt:error::Error::Corruption']
         ok = False
-        for c in corr:
-            calls, fields, binops = lib.guard_influences(b, c)
-            if 'Ge' in binops and (cmpf is None or cmpf in fields or any(re.search(r'Atomic.*::load$', x) for x in calls)):
-                ok = True
+        corr = []
+        for fb in lib.family(F, fn):          # the function or a helper extracted from it
+            cs = [bi for bi in fb.normal_blocks() for s in fb.blocks[bi]['s'] if s['k'] == 'assign' and s['r']['k'] == 'agg' and s['r']['ak'] == 'Adt:error::Error::Corruption']
+            corr += cs
+            for c in cs:
+                calls, fields, binops = lib.guard_influences(fb, c)
+                if 'Ge' in binops and (cmpf is None or cmpf in fields or any(re.search(r'Atomic.*::load$', x) for x in calls) or (fb is not b and fb.argc >= 1)):
+                    ok = True
         ctx.ob('4a link-range-checked %s' % fn, 'K3-guard', fn, 'a free-list link is compared (>=) with the fill mark and rejected as Corruption before it is followed', ok, 'corruption exits %s' % corr)
     # in-memory mirrors (free-entry stacks, ref-count cache) are derived from the files only after replay
     C02.replay_before_service(ctx, '5')
